@@ -57,6 +57,13 @@ def enumerate_cases(tier, seed):
                 for cond in (None, 2):
                     cases.append({"id": f"bnaf|dim={dim}|bd={bd}|d={depth}|cond={cond}", "kind": "bnaf", "dim": dim, "bd": bd, "d": depth,
                                   "cond": cond, "x64": True, "seed": seed})
+    # float32 (the library's default dtype) with large positive raw weights: the positivity constraint of the diagonal
+    # blocks must not overflow inside the weight normalisation
+    for dim in (1, 2, 3):
+        for bd in (1, 2):
+            for depth in (0, 1, 2):
+                cases.append({"id": f"bnaf|f32|dim={dim}|bd={bd}|d={depth}|cond=None", "kind": "bnaf", "dim": dim, "bd": bd, "d": depth,
+                              "cond": None, "x64": False, "seed": seed})
     for i in range(4):
         cases.append({"id": f"masks|{i}", "kind": "masks", "part": i, "x64": True, "seed": seed})
     return cases
@@ -92,6 +99,8 @@ def _assign(model, mode, seed):
             v = 0.3 + 0.05 * ((i * 7 + li) % 5)
         elif mode == "dense":
             v = 1.0 + 0.1 * ((i + li) % 3)
+        elif mode in ("pos30", "pos60"):
+            v = float(mode[3:]) + 0.5 * ((i + li) % 3)
         else:
             mag = 1.0 if mode == "mixed1" else 50.0
             v = mag * jnp.sin(1.3 * i + 0.7 * li + seed + 0.4)
@@ -171,11 +180,12 @@ def run_case(case):
                                       m.transform_and_log_det(x, c)[1]))
         xs = [jnp.asarray(0.4 + 0.3 * np.arange(dim)), jnp.asarray([(-1.0) ** i * (0.5 + i) for i in range(dim)])]
         cs = [None] if cond is None else [jnp.asarray(0.6 + 0.2 * np.arange(cond)), jnp.asarray([(-1.0) ** i * 1.5 for i in range(cond)])]
-        for mode in ("init", "positive", "mixed1", "mixed50", "dense"):
+        modes = ("init", "positive", "mixed1", "mixed50", "dense") if case.get("x64", True) else ("init", "positive", "pos30", "pos60")
+        for mode in modes:
             m = model if mode == "init" else _assign(model, mode, seed)
             for xi, x in enumerate(xs):
                 for c in cs:
-                    if mode == "positive" and (xi != 0 or (c is not None and float(c[0]) < 0)):
+                    if mode in ("positive", "pos30", "pos60") and (xi != 0 or (c is not None and float(c[0]) < 0)):
                         continue
                     Jx, Jc, y, ld = jac(m, x, c)
                     Jx, y = np.asarray(Jx, float), np.asarray(y, float)
